@@ -168,7 +168,8 @@ int sqfs_block_processor_append(sqfs_block_processor_t *proc, const void *data,
 		proc->stats.input_bytes_read += diff;
 	}
 
-	if (proc->blk_current->size == proc->max_block_size) {
+	if (proc->blk_current != NULL &&
+	    proc->blk_current->size == proc->max_block_size) {
 		err = enqueue_block(proc, proc->blk_current);
 		proc->blk_current = NULL;
 
